@@ -41,7 +41,7 @@ class SubBalancedDeviceSet(DeviceSet):
     labelled = {}
     unlabelled = set(range(len(leaf_devices)))
     for label in self.labels:
-      labelled[label] = [k for k, v in enumerate(leaf_devices.keys()) if re.match('.*{label}$'.format(label=label), v)]
+      labelled[label] = [k for k, v in enumerate(leaf_devices.keys()) if re.match('.*{label}$'.format(label=re.escape(label)), v)]
       unlabelled.difference_update(labelled[label])
     return (labelled, list(unlabelled))
 
